@@ -2288,6 +2288,9 @@ def check_C05(ctx):
                     if "are_unique" in o.fn:
                         continue
                     okk = o.cond[0] == "c" and bool(o.cond[1])
+                    if not okk:
+                        from .base import decide_site
+                        okk = decide_site(ctx, o)[0] is True
                     if not okk and o.cond[0] != "c":
                         # arithmetic on the hand's value (e.g. in the name/class conversion): the value is a u16;
                         # discharge over all 65536 values
@@ -2309,7 +2312,8 @@ def check_C05(ctx):
                                     for v_ in range(65536):
                                         env = {"$v": v_}
                                         env.update({"$b%d" % bi: x_ for bi, x_ in enumerate(bv_)})
-                                        if all(cval(evaluate(pdb, c, env)) for c in pc2) and not cval(evaluate(pdb, c2, env)):
+                                        f_ = Fold(pdb, env)
+                                        if all(cval(f_.ev(c)) for c in pc2) and not cval(f_.ev(c2)):
                                             okk = False
                                             break
                                     if not okk:
